@@ -1,1 +1,5 @@
+pub mod builder;
 pub mod cksum;
+pub mod inflate_ref;
+pub mod selftest;
+pub mod wrap;
